@@ -1,7 +1,7 @@
 \* simulation: random bodies of <= 4 statements (run with -simulate -depth 8)
 SPECIFICATION Spec
 CONSTANTS
-  Types = {"Q", "I", "F", "AQ", "AI", "TQ", "SQ", "SA", "TA"}
+  Types = {"Q", "I", "F", "O", "AQ", "AI", "TQ", "SQ", "SA", "TA"}
   Origins = {"owned", "borrowed", "local"}
   MutOps = {"append", "extend", "insert", "pop", "popuse", "remove", "clear", "sort", "reverse", "setitem", "setalias", "delitem", "iadd", "imul1", "imul2", "reinit"}
   MaxOps = 4
